@@ -12,6 +12,7 @@ from dalimc.core.explorer import explore
 from dalimc.aio.engine import execute, Caller
 
 ID = "C16"
+OPTIMISED_STRIDE = {"quick": 12, "thorough": 24}      # every k-th shard once more in an interpreter started with -O
 LEVEL = "model_checking"
 ENGINE = "E3"
 TECHNIQUE = "controlled-scheduler exploration (deviation-bounded) of the real asyncio drivers against gateway models that keep ground truth per command; scripted-gateway enumeration for the synchronous drivers"
